@@ -112,9 +112,11 @@ def floatLexOk (cs : List Char) : Bool :=
 def assignKeywords : List String :=
   ["phi", "alloc", "load", "cast", "call", "literal", "volatile", "undefined", "float"]
 
-/-- the printed form of a float constant is read back as one token: a FLOAT literal, or (inf, nan) a quoted string -/
+/-- the printed form of a float constant is ASCII and is read back as one token: a FLOAT literal, or (inf, nan)
+    a quoted string -/
 def floatTextOk (fmt : Nat → List Char) (b : Nat) : Bool :=
-  if nonFinite b then (fmt b).all isStrChar else floatLexOk (fmt b)
+  (fmt b).all (fun c => decide (c.toNat < 128)) &&
+    (if nonFinite b then (fmt b).all isStrChar else floatLexOk (fmt b))
 
 def instrText (fmt : Nat → List Char) : Instr → Bool
   | .const _ _ (.fbits b) => floatTextOk fmt b
